@@ -528,3 +528,12 @@ package scheduler
 // otherwise the queue (with the worker and its task) is dropped later although
 // it is in use (C01, C06).
 // (the ensures clause is part of the contract of Synchronize above.)
+
+// Listing the queued operations of an invocation sorts the invocation's own
+// queue in place (a sorted list is a valid heap). Sorting anything else, a copy
+// for instance, still rewrites the queue indices stored in the shared
+// operations, which then no longer describe the real queue; the next dequeue
+// removes the wrong operation or panics half-way through an assignment (C02).
+//@ func (*InMemoryBuildQueue).ListQueuedOperations
+//@   props C02 C01
+//@   at call getOperationState#1 assert the-listing-sorted-and-reads-the-queue-itself: samearray(queuedOperationsRegion, i.queuedOperations)
